@@ -68,8 +68,10 @@ static SessOut one_session(uint64_t seed, long idx, const std::string & path) {
         } else {
             File * f = new File;
             if (tiny) f->verifSetLimits(1 + r.below(4), 64 << r.below(5));
-            f->compressionLevel = level; f->setDefaultLogContainerSize(C); f->writeRestorePoints = r.chance(1, 2);
+            bool late = r.chance(1, 3);     // compression level configured after open(), before the first write()
+            f->compressionLevel = late ? 3 : level; f->setDefaultLogContainerSize(C); f->writeRestorePoints = r.chance(1, 2);
             f->open(path.c_str(), std::ios_base::out);
+            if (late) { busy(r, 2); f->compressionLevel = level; }
             for (int i = 0; i < n; i++) {
                 ObjectHeaderBase * o;
                 if (sizes[i] == -2) { LinMessage2 * l = new LinMessage2; l->apiMajor = 1 + i % 2; l->objectTimeStamp = i; o = l; }
